@@ -12,8 +12,8 @@ ASSUMPTIONS = [
 ]
 
 
-def correspondence(ctx, thorough, search):
-    out = os.path.join(ctx.work, "search" if search else "corr")
+def correspondence(ctx, thorough, search, prop="C10", sub=""):
+    out = os.path.join(ctx.work, ("search" if search else "corr") + sub)
     n = 300 if thorough else 12
     rc, o, dt = core.sh([core.vh(), "c10", out, str(ctx.seed + (1010 if search else 0)), str(n)], timeout=3000)
     if rc != 0:
@@ -29,7 +29,7 @@ def correspondence(ctx, thorough, search):
                 dis.append({"code": c, "meaning": "classification of a probe address differs", "file": os.path.basename(f), "case_index": i})
     ov = [{"class": v["class"], "what": v["what"], "input": {"module_hex": v.get("input")},
            "replay_cmd": "ModuleConfig::new().generate_dwarf(true).parse(<module_hex>), apply the variant named in `what`, emit_wasm, read .debug_line/.debug_info back with gimli and compare with the decoded code section"}
-          for v in meta.get("oracle_violations", []) if "C10" in v.get("props", "").split()]
+          for v in meta.get("oracle_violations", []) if prop in v.get("props", "").split()]
     cov = {"evaluations": meta["emissions"], "distinct_nontrivial": meta["emissions"], "traces_validated_against_impl": n_eval,
            "rule": "modules with functions of different sizes (reordered by the emitter), function counts 1/3/5/127/128/130 (count-LEB boundary), bodies around the 128-byte size-LEB boundary, dead code and nops that shrink bodies, a function whose first instruction is removed, plus body-rich generated modules; DWARF synthesised with gimli: v4 and v5, one row per instruction (line number = identity of the instruction), one subprogram per function with low_pc at the body start, one sequence per function or ONE sequence over all functions, v5 rows naming file 0; each emitted unchanged, after GC, and after inserting marker instructions; every row and subprogram of the output compared; classifier probes = all instruction starts, range boundaries and neighbours",
            "input_distribution": {k: meta[k] for k in ("inputs", "emissions", "rows_checked", "subprograms_checked", "panics", "configurations")},
